@@ -81,3 +81,29 @@ func lemmaCmpTrans(a, b, c Object) (ab, bc, ac int, eab, ebc, eac bool) {
 //@   ensures  transitive:: implies(result0 <= 0 && result1 <= 0, result2 <= 0)
 //@   ensures  eqtrans:: implies(result3 && result4, result5)
 //@   property C12
+
+//@ func FreeMemory assumed
+//@   modifies *
+//@   ensures  result < 140737488355328
+//@   property C09
+
+//@ func SizeOk
+//@   overflow
+//@   modifies *
+//@   ensures  small:: implies(n <= 256, result0)
+//@   ensures  guard:: implies(result0 && n > 256, result1 >= 0 && n * 16 < result1)
+//@   ensures  limit:: implies(n > 256, result1 < 140737488355328)
+//@   property C09 C07
+
+//@ func MustBeOk
+//@   modifies *
+//@   maypanic would exceed memory
+//@   ensures  n <= 256 || n * 16 < 140737488355328
+//@   property C09 C07
+
+//@ func MakeObjectSlice
+//@   requires n >= 0
+//@   modifies *
+//@   maypanic would exceed memory
+//@   ensures  len(result) == 0 && cap(result) == n
+//@   property C09 C07
